@@ -153,6 +153,11 @@ impl UnixServer {
                 }
             }
             _ => {
+                client
+                    .skip_payload(frame.payload_length)
+                    .await
+                    .map_err(TcpError::Io)?;
+
                 return Err(TcpError::UnknownMessage(frame.message));
             }
         }
